@@ -167,6 +167,7 @@ class Field:
         self.form_of = {}  # node id -> RF
         self.atoms = {}  # atom id -> node
         self.cnt = 0
+        self.link_differences = False
 
     # ---- node -> RF (valid modulo N)
     def rf(self, n):
@@ -240,9 +241,54 @@ class Field:
             (m, c), = f.num.t.items()
             conds = [self.is_zero_cond(SI(self.atoms[a])) for a, e in m]
             self.axiom(b_or(b_and(zero, b_or(*conds) if conds else FALSE), b_and(b_not(zero), b_not(b_or(*conds)) if conds else TRUE)))
+        if self.link_differences:
+            # additive structure: if f - g is (the form of) something that already has an integer value h, then
+            # V_f = V_g + V_h (mod N).  Gives z3 the relations between opaque variables that the polynomial identities imply.
+            links = 0
+            cands = list(self.forms) + [(RF(Poly.atom(aid, N)), an) for aid, an in self.atoms.items() if an.lo >= 0 and an.hi < N]
+            for g, gn in cands:
+                if links >= 6:
+                    break
+                for sg in (1, -1):
+                    diff = (f - g) if sg == 1 else (f + g)
+                    hv, sh = self.lookup(diff), 1
+                    if hv is None:
+                        hv, sh = self.lookup(-diff), -1
+                    if hv is None:
+                        continue
+                    # V_f = sg*V_g + sh*V_h  (mod N), every V in [0, N-1]
+                    hn = lift(hv)
+                    tot = core.n_add(gn if sg == 1 else core.n_neg(gn), hn if sh == 1 else core.n_neg(hn))
+                    opts = [b_cmp("eq", node, core.n_add(tot, const(q * N))) for q in (-1, 0, 1, 2)]
+                    self.axiom(b_or(*opts))
+                    links += 1
+                    break
         self.forms.append((f, node))
         self.form_of[node.id] = f
         return SI(node)
+
+    def lookup(self, f):
+        """the existing integer value (const / in-range atom / opaque variable) of form f, or None -- never creates"""
+        N = self.N
+        if f.num.is_zero():
+            return None
+        if not f.den.is_const():
+            q = f.num.divide_exact(f.den)
+            if q is None:
+                return None
+            f = RF(q)
+        if f.num.is_const():
+            return f.num.const_value() * pow(f.den.const_value(), N - 2, N) % N
+        if f.den.const_value() == 1:
+            sa = f.num.single_atom()
+            if sa is not None and sa[0] == 1:
+                n = self.atoms[sa[1]]
+                if n.lo >= 0 and n.hi < N:
+                    return wrap(n)
+        for g, node in self.forms:
+            if g.equals(f):
+                return SI(node)
+        return None
 
     def axiom(self, p):
         c = core.CTX
@@ -361,6 +407,7 @@ class AbstractGroup:
         self.xs = []  # (RF, X node, parity bool node)
         self.cnt = 0
         self.lifted = {}  # id of x node -> point scalar (for parse_xonly)
+        self.injective_x = False  # add X(f)==X(g) -> f == +-g instances (needed for "altered signature is rejected" claims)
 
     def coords(self, d):
         """(X node, parity node) for the non-zero scalar d (SI/int canonical mod N)"""
@@ -379,6 +426,18 @@ class AbstractGroup:
         pn = b_var(f"par{self.cnt}")
         if core.CTX is not None:
             core.CTX.vars[pn.args[0]] = pn
+        if self.injective_x:
+            # the x coordinate determines the point up to sign: X(f) == X(g) implies f == g or f == -g (mod N)
+            dn = lift(self.F.canon(f))
+            for g, xg, pg in self.xs:
+                dg = lift(self.F.canon(g))
+                same = b_cmp("eq", dn, dg)
+                opp = b_cmp("eq", core.n_add(dn, dg), const(self.F.N))
+                xeq = b_cmp("eq", xn, xg)
+                peq = b_or(b_and(pn, pg), b_and(b_not(pn), b_not(pg)))
+                self.F.axiom(b_or(b_not(xeq), same, opp))
+                self.F.axiom(b_or(b_not(same), b_and(xeq, peq)))
+                self.F.axiom(b_or(b_not(opp), b_and(xeq, b_not(peq))))
         self.xs.append((f, xn, pn))
         return xn, pn
 
